@@ -200,6 +200,49 @@ pub async fn text_out(chunks: Vec<String>) -> Result<TextStream, ServerFnError> 
     Ok(TextStream::new(stream::iter(chunks.into_iter().map(chunk_plan))))
 }
 
+/// byte stream in, json out (the macro cannot express a `Streaming` input, whose argument type
+/// must itself be the stream, so this one is written by hand the way the macro would expand)
+pub struct BytesIn(std::sync::Mutex<std::pin::Pin<Box<dyn futures::Stream<Item = Bytes> + Send>>>);
+impl BytesIn {
+    pub fn new(chunks: Vec<Vec<u8>>) -> Self {
+        BytesIn(std::sync::Mutex::new(Box::pin(stream::iter(chunks.into_iter().map(Bytes::from)))))
+    }
+}
+impl futures::Stream for BytesIn {
+    type Item = Bytes;
+    fn poll_next(
+        self: std::pin::Pin<&mut Self>,
+        cx: &mut std::task::Context<'_>,
+    ) -> std::task::Poll<Option<Bytes>> {
+        self.get_mut().0.get_mut().unwrap().as_mut().poll_next(cx)
+    }
+}
+impl From<ByteStream> for BytesIn {
+    fn from(s: ByteStream) -> Self {
+        BytesIn(std::sync::Mutex::new(Box::pin(s.into_inner().map(|r| r.unwrap_or_else(|e| e)))))
+    }
+}
+pub async fn count_bytes(input: BytesIn) -> Result<Vec<u8>, ServerFnError> {
+    let chunks: Vec<Bytes> = input.collect().await;
+    Ok(chunks.concat())
+}
+impl ServerFn for BytesIn {
+    const PATH: &'static str = "/api/count_bytes";
+    type Client = LoopClient;
+    type Server = LoopServer;
+    type Protocol = server_fn::Http<Streaming, Json>;
+    type Output = Vec<u8>;
+    type Error = ServerFnError;
+    type InputStreamError = ServerFnError;
+    type OutputStreamError = ServerFnError;
+    async fn run_body(self) -> Result<Vec<u8>, ServerFnError> {
+        count_bytes(self).await
+    }
+}
+server_fn::inventory::submit! {
+    server_fn::ServerFnTraitObj::new::<BytesIn>(|req| Box::pin(BytesIn::run_on_server(req)))
+}
+
 /// multipart in (server side only; the browser builds such requests)
 #[server(input = MultipartFormData, output = Json, client = LoopClient, server = LoopServer)]
 pub async fn upload(data: MultipartData) -> Result<Vec<(String, usize)>, ServerFnError> {
@@ -376,6 +419,17 @@ pub fn run(c: &Sexp) -> Sexp {
             };
             let remote = collect_text(block_on(TextOut { chunks: chunks.clone() }.run_on_client()));
             let direct = collect_text(block_on(text_out(chunks)));
+            Lst(vec![remote, direct])
+        }
+        // byte stream in
+        17 => {
+            let chunks: Vec<Vec<u8>> = c.at(1).list().iter().map(|b| b.bytes()).collect();
+            let show = |r: Result<Vec<u8>, ServerFnError>| match r {
+                Ok(b) => Lst(vec![Num(0), Sexp::from_bytes(&b)]),
+                Err(e) => Lst(vec![Num(1), crate::errs::err_to_sexp(&e)]),
+            };
+            let remote = show(block_on(BytesIn::new(chunks.clone()).run_on_client()));
+            let direct = show(block_on(count_bytes(BytesIn::new(chunks))));
             Lst(vec![remote, direct])
         }
         _ => Lst(vec![]),
